@@ -7,4 +7,6 @@ require (
 	github.com/hack-pad/hackpadfs v0.0.0
 )
 
+require github.com/hack-pad/safejs v0.1.0 // indirect
+
 replace github.com/hack-pad/hackpadfs => /repo
